@@ -266,10 +266,8 @@ def run_case(args):
                 res["dp"] = True
                 bound = float(env.get_score_upper_bound())
                 if opt > bound + 1e-6:
-                    negdv = any(h.discovery_value < 0 for h in sc.hosts.values())
                     over = hops_i > (int(out[1]) if len(out) > 1 else hops_i)
-                    key = ("C20:negative-discovery-value" if negdv else
-                           "C20:hops-exceed-minimal-subnet-set" if over else None)
+                    key = "C20:hops-exceed-minimal-subnet-set" if over else None
                     f = dict(property="C20", kind="failing-input",
                              what=f"a goal-reaching episode earns {opt} > advertised upper bound {bound}",
                              replay=dict(kind="bound-episode", scenario=desc, plan=plan, total=opt, bound=bound,
